@@ -345,8 +345,8 @@ func (e *Environment) create(name string, val Object) Object {
 func (e *Environment) update(name string, found, val Object) Object {
 	if vref, ok := val.(Reference); ok {
 		log.Debugf("Not setting %q to a reference %q", name, vref.Name)
-		val = Value(val)
 	}
+	val = Value(val) // store the value, not a reference nor a (live) register.
 	if rr, ok := found.(Reference); ok {
 		log.Debugf("SetNoChecks(%s) updating ref %s in %d", name, rr.Name, rr.RefEnv.depth)
 		e = rr.RefEnv
